@@ -12,6 +12,7 @@ one response line per request.  Strings travel as hex of their UTF-8 bytes.
 -/
 import UH.Model.Main
 import UH.Model.MainBig
+import UH.Model.ByNameEval
 open UH
 
 def hexVal (c : Char) : Nat :=
@@ -119,6 +120,16 @@ def handle (line : String) : String :=
       | .bottom => "bottom"
       | .unmodelled why => s!"unmodelled {hexStr why}"
     s!"{base} {worldStr w} height={h}"
+  | ["bn", fuel, text] =>
+    -- the call-by-name reference semantics on trees (UH/Model/ByNameEval.lean); `none` = outside the fragment / out of fuel
+    match parse normChar (cps (unhex text)) with
+    | .ok [e] =>
+      match ByName.bnEval fuel.toNat! (.mk [] []) e with
+      | some (.int n) => s!"int {n}"
+      | some (.bool b) => if b then "bool True" else "bool False"
+      | some (.clo _ _) => "fn"
+      | none => "none"
+    | _ => "none"
   | "cli" :: fuel :: stdin :: fs :: text :: args =>
     let (o, w) := runCli fuel.toNat! (mkWorld stdin fs) (cps (unhex text)) (args.map unhex)
     let base := match o with
